@@ -153,11 +153,16 @@ def user_event_class():
 
         class TaggedSimEvent(SimEvent):
             """a user model may define its own event class; this one calls the handler directly, so a failing handler's
-            OWN exception (not a DSOLError wrapper) reaches the simulator: fault containment must not depend on the wrapper"""
+            OWN exception (not a DSOLError wrapper) reaches the simulator: fault containment must not depend on the wrapper.
+            (It keeps its own reference to the handler: the library's private field names are none of its business.)"""
+
+            def __init__(self, time, target, method, priority=5, **kwargs):
+                super().__init__(time, target, method, priority, **kwargs)
+                self._u_call, self._u_kwargs = getattr(target, method), kwargs
 
             def execute(self):
                 try:
-                    self._method(**self._kwargs)
+                    self._u_call(**self._u_kwargs)
                 except Exception:
                     raise
                 except BaseException as ex:       # (not an Exception: by Python's convention it would be meant to escape)
